@@ -80,9 +80,9 @@ theorem case_assign (code : Code) (fuel : Nat) (ih : IHle code fuel) (x : Nat) (
       (RecL.Ref.exec (fuel + 1) (desugar (.assign x path t e p)) s) := by
   simp only [compileStmt] at hc
   simp only [Wf] at hw
-  obtain ⟨hpt, hwe, hcs⟩ := hw
+  obtain ⟨hpt, hwe⟩ := hw
   obtain ⟨st0, root, ft, h1, h2, h3, h4⟩ := pathTyped_expand hr.twf hpt
-  have he := exprToE_correct' code sc e t off s σ hc.append_left.append_left hpc hr hwe hcs
+  have he := exprToE_correct' code sc e t off s σ hc.append_left.append_left hpc hr hwe
   simp only [desugar, RecL.Ref.exec, sizeStmt]
   cases hev : RecL.Ref.evalTo s.env e t with
   | err c q => rw [hev] at he; exact he
